@@ -76,11 +76,22 @@ func (i *Ignore) IsIncluded(path string, index *Index) bool {
 		}
 	}
 	for _, exFile := range i.paths {
-		// a pattern applies to whole path components: '.goit/' must not hide 'x.goit/'
-		exRegexp := regexp.MustCompile("(^|/)" + exFile)
-		if exRegexp.MatchString(target) {
+		// a pattern applies to whole path components: '.goit/' must not hide 'x.goit/'.
+		// regexp works on UTF-8 text but a file name is any bytes: pattern and path are both
+		// matched byte by byte, an entry naming 'r\xe9sum\xe9/' must not be an invalid expression
+		exRegexp := regexp.MustCompile("(^|/)" + bytesAsRunes(exFile))
+		if exRegexp.MatchString(bytesAsRunes(target)) {
 			return true
 		}
 	}
 	return false
+}
+
+// bytesAsRunes returns the string in which every byte of s is one character of the same value
+func bytesAsRunes(s string) string {
+	runes := make([]rune, len(s))
+	for i := 0; i < len(s); i++ {
+		runes[i] = rune(s[i])
+	}
+	return string(runes)
 }
